@@ -124,15 +124,15 @@ func (e *Encoder) binop(op token.Token, x, y string, t types.Type, yt types.Type
 	case info&types.IsString != 0:
 		switch op {
 		case token.ADD:
-			return fmt.Sprintf("(str.cat %s %s)", x, y), nil
+			return fmt.Sprintf("(strcat %s %s)", x, y), nil
 		case token.LSS:
-			return fmt.Sprintf("(str.lt %s %s)", x, y), nil
+			return fmt.Sprintf("(strlt %s %s)", x, y), nil
 		case token.GTR:
-			return fmt.Sprintf("(str.lt %s %s)", y, x), nil
+			return fmt.Sprintf("(strlt %s %s)", y, x), nil
 		case token.LEQ:
-			return fmt.Sprintf("(not (str.lt %s %s))", y, x), nil
+			return fmt.Sprintf("(not (strlt %s %s))", y, x), nil
 		case token.GEQ:
-			return fmt.Sprintf("(not (str.lt %s %s))", x, y), nil
+			return fmt.Sprintf("(not (strlt %s %s))", x, y), nil
 		}
 	case info&types.IsFloat != 0:
 		switch op {
@@ -420,7 +420,7 @@ func (e *Encoder) convert(x string, from, to types.Type) (string, error) {
 	case fi&types.IsBoolean != 0 && ti&types.IsBoolean != 0:
 		return x, nil
 	case fi&types.IsInteger != 0 && ti&types.IsString != 0:
-		return e.uf("str.fromrune", []string{e.sortOf(from)}, "Str", x), nil
+		return e.uf("strfromrune", []string{e.sortOf(from)}, "Str", x), nil
 	}
 	return "", fmt.Errorf("unsupported conversion %s -> %s", from, to)
 }
